@@ -184,3 +184,27 @@ def bounded_queue_threads(p):
       if not S.check(ok, w, f'{w}: {why}', cls='threads'):
         return S.result()
   return S.result()
+
+
+def bounded_stop_is_final(p):
+  """After a stop request no producer enqueues anything any more - also one that only starts afterwards."""
+  import threading
+  S = Search(p, dict(before_stop='0..2 producers ran', late_producer='starts after maybe_stop() with 1..3 elements', capacity='0 (unbounded), 16'))
+  for cap in (0, 16):
+    for ran in (0, 1, 2):
+      for late in (1, 2, 3):
+        q = iter_utils.IteratorQueue(cap, name='q', timeout=2)
+        for r in range(ran):
+          q.enqueue_from_iterator(iter([('early', r)]))
+        if not ran:
+          q._max_enqueuer = 1          # a producer was announced but has not started yet
+        q.maybe_stop()
+        before = q._queue.qsize()
+        t = threading.Thread(target=lambda: expect(lambda: q.enqueue_from_iterator(iter([('late', i) for i in range(late)]))), daemon=True)
+        t.start()
+        t.join(10)
+        added = q._queue.qsize() - before
+        S.check(added == 0 and not t.is_alive(), dict(what='producer starting after the stop request', capacity=cap, producers_before=ran, late_elements=late),
+                f'capacity {cap}, {ran} producer(s) finished, maybe_stop(), then a producer with {late} element(s) starts: {added} element(s) were enqueued after the stop'
+                f' (producer still running: {t.is_alive()})', cls=f'late-{cap}-{ran}')
+  return S.result()
